@@ -129,7 +129,12 @@ impl HttpClient {
     where
         Self: Sized,
     {
-        let mut client_builder = AgentBuilder::new();
+        // Do not keep connections for reuse: ureq drops the socket timeouts of a
+        // connection it puts back into its pool, so a request sent over a reused one
+        // (the follow-up of a redirect) could wait for a reply forever.
+        let mut client_builder = AgentBuilder::new()
+            .max_idle_connections(0)
+            .max_idle_connections_per_host(0);
 
         // Set timeout settings
         let (read_timeout, write_timeout) = TimeoutSettings::get_read_and_write_or_defaults(timeout_settings);
